@@ -1,5 +1,6 @@
 import PV.Expr.Syntax
 import PV.C17.Dec
+import PV.Gen.C11Xid
 /-
   C11 — a small reference tokenizer for the expression fragment.
 
@@ -11,18 +12,33 @@ import PV.C17.Dec
   expressions need them; it is tied to `parser/src/lexer.rs` only through the C11 correspondence
   streams (model = unparse (parseRef (lex src)) vs implementation).
 
+  Non-ASCII characters outside string literals are classified as the real lexer classifies them
+  (`unic_ucd_ident::{is_xid_start, is_xid_continue}`, `unic_emoji_char::is_emoji_presentation`):
+  the three range tables in `PV/Gen/C11Xid.lean` are extracted from the real lexer on every run of
+  `./check C11` (behaviourally, like the parenthesisation table) — an identifier starts with an
+  XID_Start character and goes on with XID_Continue characters, a character with emoji presentation
+  is a one-character name, every other non-ASCII character is an error.
+
   Deliberately outside its domain (the generators of tools/props/c11.py stay inside):
-  `\N{name}` escapes (need the Unicode name table), non-ASCII characters other than inside string
-  literals and identifiers (every non-ASCII character outside a string counts as an identifier
-  character), indentation, soft keywords, type comments.
+  `\N{name}` escapes (need the Unicode name table), indentation, soft keywords, type comments.
   `none` = not lexable (the real lexer reports an error, or the input is outside the domain).
 -/
 namespace PV.C11
 open PV.Expr
 
 def isDigit (c : Nat) : Bool := 48 ≤ c && c ≤ 57
-def isIdStart (c : Nat) : Bool := (97 ≤ c && c ≤ 122) || (65 ≤ c && c ≤ 90) || c == 95 || c ≥ 128
-def isIdCont (c : Nat) : Bool := isIdStart c || isDigit c
+
+/-- membership in a table of closed ranges -/
+def inRanges (rs : List (Nat × Nat)) (c : Nat) : Bool := rs.any fun ab => ab.1 ≤ c && c ≤ ab.2
+
+/-- `is_identifier_start`: ASCII letters and `_`, else `is_xid_start` -/
+def isIdStart (c : Nat) : Bool :=
+  (97 ≤ c && c ≤ 122) || (65 ≤ c && c ≤ 90) || c == 95 || (decide (c ≥ 128) && inRanges Gen.xidStartRanges c)
+/-- `is_identifier_continuation`: ASCII letters, digits and `_`, else `is_xid_continue` -/
+def isIdCont (c : Nat) : Bool :=
+  isIdStart c || isDigit c || (decide (c ≥ 128) && inRanges Gen.xidContinueRanges c)
+/-- `is_emoji_presentation` (the last arm of `consume_character`): such a character is a name of its own -/
+def isEmojiName (c : Nat) : Bool := decide (c ≥ 128) && inRanges Gen.emojiRanges c
 
 def digitOfRadix (radix c : Nat) : Option Nat :=
   if isDigit c then (if c - 48 < radix then some (c - 48) else none)
@@ -386,9 +402,13 @@ def lexGo : Nat → Nat → List Nat → Option (List Tok)
           else nest
         if (o = .rpar ∨ o = .rsqb ∨ o = .rbrace) ∧ nest = 0 then none
         else (lexGo fuel nest' r).map (.op o :: ·)
-      | none => none
+      | none =>
+        if isEmojiName c then (lexGo fuel nest rest).map (.name [c] :: ·) else none
 
-/-- tokens of an expression source text -/
-def lex (cs : List Nat) : Option (List Tok) := lexGo (cs.length + 1) 0 cs
+/-- tokens of an expression source text (`Lexer::new` skips one byte-order mark at the very start) -/
+def lex (cs : List Nat) : Option (List Tok) :=
+  match cs with
+  | 0xFEFF :: r => lexGo (r.length + 1) 0 r
+  | _ => lexGo (cs.length + 1) 0 cs
 
 end PV.C11
